@@ -71,3 +71,83 @@ def oracle_threads(case, obs):
 
 FAMILIES.append(Family("threads", gen_threads, impl_threads, None, None, oracle_threads,
                        lambda case, obs: json.dumps(case), shard=30, case_timeout=30))
+
+
+# ---- the SAME typed message kind logged by two threads at once, and re-entrantly from inside a serializer ----
+def gen_shared(rng, tier):
+    out = [{"reentrant": k} for k in ("b", "a", "c")]
+    for i in range(0, 150 if tier == "quick" else 400, 3 if tier == "quick" else 1):
+        out.append({"segments": [[0, i], [1, 3000], [0, 3000]]})
+        out.append({"segments": [[1, i], [0, 3000], [1, 3000]]})
+    for _ in range(20 if tier == "quick" else 300):
+        out.append({"sched": [rng.randrange(2) for _ in range(rng.randrange(0, 500))]})
+    return out
+
+
+def impl_shared(case):
+    from lib.linesched import LineScheduler, segments_to_schedule, instrument
+    from eliot import MessageType, ActionType, Field, _output
+    d = _output.Destinations()
+    _output.Logger._destinations = d
+    got = []
+    d.add(lambda m: got.append(dict(m)))
+    calls = []
+    holder = {}
+
+    def ser(name):
+        def f(v):
+            calls.append([name, v])
+            if case.get("reentrant") == name and v == "outer-" + name:
+                # a serializer that itself logs a message of the same kind (e.g. describing a child object)
+                holder["T"].log(a="inner-a", b="inner-b", c="inner-c")
+            return ["S", name, v]
+        return f
+    T = MessageType("typed:shared", [Field("a", ser("a"), ""), Field("b", ser("b"), ""), Field("c", ser("c"), "")], "")
+    holder["T"] = T
+    if case.get("reentrant"):
+        try:
+            T.log(a="outer-a", b="outer-b", c="outer-c")
+            results = [["ok", None]]
+        except BaseException as e:
+            results = [["raised", type(e).__name__]]
+        want = ["inner", "outer"]
+    else:
+        s = LineScheduler(files=("eliot/_output.py", "eliot/_validation.py"))
+        instrument(d, s)
+
+        def make(t):
+            return lambda: T.log(a="t%d-a" % t, b="t%d-b" % t, c="t%d-c" % t)
+        sched = case.get("sched")
+        if sched is None:
+            sched = segments_to_schedule([tuple(x) for x in case["segments"]])
+        s.run([make(0), make(1)], sched)
+        results = s.results
+        want = ["t0", "t1"]
+    msgs = [{k: m.get(k) for k in ("message_type", "a", "b", "c")} for m in got]
+    return {"results": results, "msgs": msgs, "calls": calls, "want": want}
+
+
+def oracle_shared(case, obs):
+    for r in obs["results"]:
+        if not r or r[0] != "ok":
+            return "a typed logging call raised: %r" % (r,)
+    typed = [m for m in obs["msgs"] if m["message_type"] == "typed:shared"]
+    if len(typed) != len(obs["msgs"]):
+        return "unexpected extra messages: %r" % [m["message_type"] for m in obs["msgs"]]
+    for who in obs["want"]:
+        exp = {"message_type": "typed:shared", "a": ["S", "a", who + "-a"], "b": ["S", "b", who + "-b"], "c": ["S", "c", who + "-c"]}
+        n = sum(1 for m in typed if m == exp)
+        if n != 1:
+            return ("the message logged with values %s-a/%s-b/%s-c must arrive once with each declared field replaced by its "
+                    "own serializer's output; delivered: %r" % (who, who, who, typed))
+        for name in "abc":
+            k = sum(1 for c in obs["calls"] if c == [name, "%s-%s" % (who, name)])
+            if k != 1:
+                return "serializer of field %s ran %d times for the value %s-%s" % (name, k, who, name)
+    if len(typed) != len(obs["want"]):
+        return "%d typed messages delivered, %d logged" % (len(typed), len(obs["want"]))
+    return None
+
+
+FAMILIES.append(Family("shared_type", gen_shared, impl_shared, None, None, oracle_shared,
+                       lambda case, obs: json.dumps(case), shard=30, case_timeout=30))
